@@ -17,6 +17,7 @@ is in `FindingRobin.lean`.
 -/
 import EPV.Lemmas.HeatSeries
 import EPV.Gen.RodModesGen
+import EPV.Lemmas.Bridge.RodModesGen
 import EPV.Tactics
 
 set_option linter.all false
@@ -47,8 +48,7 @@ theorem rod_bc_of_modes (N : ℕ) (κ c1 : ℝ) (st : ℝ → ℝ) (hst : ∀ y,
 /-- the leaf of `modes_BCgen` for α₁ ≠ 0, n ≠ 0 relates the two coefficients by `A_n = -(β₁/L · μ / α₁) B_n` -/
 theorem robin_An (q : RodModesGen.P) (hα : q.alpha1 ≠ 0) (hn : q.n ≠ 0) :
     RodModesGen.An q = -((q.beta1 / q.L * q.mu) / q.alpha1) * RodModesGen.Bn q ∧ RodModesGen.kn q = q.mu / q.L := by
-  simp only [epv_tree, epv_cond, hα, hn, if_false, RodModesGen.L2.An, RodModesGen.L2.Bn, RodModesGen.L2.kn]
-  exact ⟨trivial, trivial⟩
+  exact ⟨Bridge.rodModesGen_An_ne q hα hn, Bridge.rodModesGen_kn_ne q hα hn⟩
 
 /-- **x = 0**: every mode satisfies `α₁ X(0) + β₁ X'(0) = 0`, whatever the root -/
 theorem robin_left (q : RodModesGen.P) (hα : q.alpha1 ≠ 0) (hn : q.n ≠ 0) (hL : q.L ≠ 0) :
@@ -71,8 +71,8 @@ theorem robin_right_iff (q : RodModesGen.P) (hα : q.alpha1 ≠ 0) (hn : q.n ≠
     ↔ RodModesGen.residual q = 0 := by
   obtain ⟨hA, hk⟩ := robin_An q hα hn
   have hres : RodModesGen.residual q = Real.tan q.mu
-      - ((q.alpha2 * (q.beta1 / q.L) - q.alpha1 * (q.beta2 / q.L)) * q.mu) / (q.alpha1 * q.alpha2 + q.beta1 / q.L * (q.beta2 / q.L) * q.mu ^ 2) := by
-    simp only [epv_tree, epv_cond, hα, hn, if_false, RodModesGen.L2.residual]
+      - ((q.alpha2 * (q.beta1 / q.L) - q.alpha1 * (q.beta2 / q.L)) * q.mu) / (q.alpha1 * q.alpha2 + q.beta1 / q.L * (q.beta2 / q.L) * q.mu ^ 2) :=
+    Bridge.rodModesGen_residual_ne q hα hn
   rw [hA, hk, hres, div_mul_cancel₀ _ hL, Real.tan_eq_sin_div_cos]
   set B := RodModesGen.Bn q
   set s := Real.sin q.mu
@@ -96,13 +96,10 @@ theorem robin0_right_iff (q : RodModesGen.P) (hα : q.alpha1 = 0) (hL : q.L ≠ 
       + q.beta2 * (-(RodModesGen.An q * RodModesGen.kn q) * Real.sin (RodModesGen.kn q * q.L)
           + RodModesGen.Bn q * RodModesGen.kn q * Real.cos (RodModesGen.kn q * q.L)) = 0
     ↔ RodModesGen.residual q = 0 := by
-  have hk : RodModesGen.kn q = q.mu / q.L := by
-    by_cases hn : q.n = 0 <;> simp only [epv_tree, epv_cond, hα, hn, if_true, if_false, RodModesGen.L0.kn, RodModesGen.L3.kn]
-  have hBz : RodModesGen.Bn q = 0 := by
-    by_cases hn : q.n = 0 <;> simp only [epv_tree, epv_cond, hα, hn, if_true, if_false, RodModesGen.L0.Bn, RodModesGen.L3.Bn]
-  have hres : RodModesGen.residual q = Real.tan q.mu - q.alpha2 / (q.beta2 / q.L) / q.mu := by
-    by_cases hn : q.n = 0 <;>
-      simp only [epv_tree, epv_cond, hα, hn, if_true, if_false, RodModesGen.L0.residual, RodModesGen.L3.residual]
+  have hk : RodModesGen.kn q = q.mu / q.L := Bridge.rodModesGen_kn_zero q hα
+  have hBz : RodModesGen.Bn q = 0 := Bridge.rodModesGen_Bn_zero q hα
+  have hres : RodModesGen.residual q = Real.tan q.mu - q.alpha2 / (q.beta2 / q.L) / q.mu :=
+    Bridge.rodModesGen_residual_zero q hα
   rw [hk, hBz, hres, div_mul_cancel₀ _ hL, Real.tan_eq_sin_div_cos]
   set A := RodModesGen.An q
   have hb2 : q.beta2 / q.L ≠ 0 := div_ne_zero hβ hL
